@@ -29,6 +29,18 @@ UnionUpTo(h, s) == IF s = 0 THEN {} ELSE UnionUpTo(h, s - 1) \cup Range(h[s].req
 Quads(c) == UNION { { <<UnionUpTo(c.hists[h], s), c.hists[h][s].o, s = 1, "ProgramUnit" \in Range(c.hists[h][1].req)>>
                       : s \in DOMAIN c.hists[h] } : h \in DOMAIN c.hists }
 
+\* Classes requested while the program units exist: the requests from the first one that makes the union
+\* contain ProgramUnit onwards (ProgramUnit included).  Whatever was requested *before* the units existed may be
+\* forgotten by Loki (known finding, decided by the full-union clause); what is requested afterwards - also when
+\* it repeats an earlier request - must be discovered.
+RECURSIVE FreshUpTo(_, _)
+FreshUpTo(h, s) == IF s = 0 THEN {}
+                   ELSE FreshUpTo(h, s - 1) \cup (IF "ProgramUnit" \in UnionUpTo(h, s) THEN Range(h[s].req) ELSE {})
+\* <<fresh classes, observation>> of the steps of histories that do not start with ProgramUnit, once units exist
+FreshPairs(c) == UNION { { <<FreshUpTo(c.hists[h], s) \cup {"ProgramUnit"}, c.hists[h][s].o>>
+                           : s \in {t \in DOMAIN c.hists[h] : "ProgramUnit" \in UnionUpTo(c.hists[h], t)} }
+                         : h \in {g \in DOMAIN c.hists : "ProgramUnit" \notin Range(c.hists[g][1].req)} }
+
 \* Verdict(c) = <<ok, clause, 0, details>>; details = witnesses <<clause, direct, P, o, unitstart>> per violated
 \* clause (unitstart: "unit" = the witness comes from a history whose first request contains ProgramUnit,
 \* "nounit" = the clause is violated only in histories that request ProgramUnit later)
@@ -57,7 +69,15 @@ Verdict(c) ==
         odDet == IF odT # {} THEN {<<"order-dependence", FALSE, PStr(Best(odT)[1]), Best(odT)[2], "unit">>}
                  ELSE IF odR # {} THEN {<<"order-dependence", FALSE, PStr(Best(odR)[1]), Best(odR)[2], "nounit">>}
                  ELSE {}
-        det == clauseDet \cup odDet
+        \* the weaker demand on histories that request ProgramUnit late: classes requested since the units exist
+        fps == FreshPairs(c)
+        badF == UNION { { <<pr, x>> : x \in Clauses(c.obs[pr[2]], c.file, pr[1]) } : pr \in fps }
+        WF(x) == {b[1] : b \in {bb \in badF : bb[2] = x}}
+        \* (a clause that is already violated in histories starting with ProgramUnit is a defect of its own,
+        \* reported there, not a loss caused by the late ProgramUnit request)
+        freshDet == { <<x, FALSE, PStr(Best(WF(x))[1]), Best(WF(x))[2], "repeat">>
+                      : x \in {y \in {b[2] : b \in badF} : W(y, TRUE) = {}} }
+        det == clauseDet \cup odDet \cup freshDet
     IN IF det = {} THEN <<TRUE, "ok", 0, {}>>
        ELSE <<FALSE, (CHOOSE d \in det : TRUE)[1], 0, det>>
 
